@@ -1415,6 +1415,22 @@ fn check_with(c: &Case, f: &Facts) -> Result<Notes, String> {
         }
         if let Some(s) = &m.source {
             scan(&format!("{tag} source code"), s)?;
+            // "show the right line": the text handed to miette is, line by line, the input (control
+            // characters replaced one for one); the CR of a CRLF line break belongs to the break,
+            // not to the line, and must not show up as a visible character at the end of it
+            for (n, (shown, orig)) in s.split('\n').zip(c.text.split('\n')).enumerate() {
+                let orig = orig.strip_suffix('\r').unwrap_or(orig);
+                let (sh, og): (Vec<char>, Vec<char>) = (shown.trim_end().chars().collect(), orig.chars().collect());
+                let same = sh.len() <= og.len() && sh.iter().zip(og.iter()).all(|(a, b)| a == b || is_forbidden(*b));
+                if !same {
+                    return Err(format!(
+                        "{tag} source code: line {} is exposed as {:?}, the input line is {:?}",
+                        n + 1,
+                        clip(shown, 80),
+                        clip(orig, 80)
+                    ));
+                }
+            }
         }
         // the label marks the reported position: some label of the top-level diagnostic starts at
         // the byte of the source text (as handed to the adapter) that (line, column) denotes
